@@ -293,7 +293,7 @@ def _run(ctx, pq):
 
     # ---------------------------------------------------------------- E: whole datasets
     n_e = 160 if quick else 1500
-    cases = L.load_corpus("C08") + [gen_frame_case(rng, i < (10 if quick else 40), i) for i in range(n_e)]   # corpus, confirmation/regression streams, random
+    cases = L.load_corpus("C08") + [gen_frame_case(rng, i < (14 if quick else 56), i) for i in range(n_e)]   # corpus, confirmation/regression streams, random
     # forked workers (harness.common.pmap): a native crash or a hang while writing/reading is a failing input
     results = L.run_dataset_jobs(ctx, check_dataset, cases, "e", _replayable)
     for case, res in zip(cases, results):
@@ -351,6 +351,21 @@ def gen_column(rng, kind, n, drill):
         pool = [t for t in STR_POOL if L.legal_text(t, drill)]
         vals = rng.sample(pool, min(card, len(pool))) + ([None] if nulls else [])
         return pd.Series(np.array([rng.choice(vals) for _ in range(n)] + [None], dtype=object)[:-1])
+    if kind == "pct":       # text that a reader must not "decode": percent sequences, '+', spaces, unicode
+        pool = ["a%2Fb", "A%42", "AB", "%", "100%", "a+b", "a b", "%41", "A", "%zz", "caf%C3%A9", "café", "x%25", "x%", "%2F", "%E2%82%AC", "€"]
+        vals = rng.sample(pool, min(max(card, 2), len(pool))) + ([None] if nulls else [])
+        if rng.random() < 0.5:
+            vals += rng.choice([["A%42", "AB"], ["%41", "A"], ["caf%C3%A9", "café"], ["x%25", "x%"]])     # pairs a decoder collapses
+        return pd.Series(np.array([rng.choice(vals) for _ in range(n)] + [None], dtype=object)[:-1])
+    if kind == "catnumtxt":  # categorical whose TEXT labels look like numbers (codes int8, or int16 with many categories)
+        cats = rng.sample(["1", "2", "7", "-3", "10"], rng.choice([3, 4])) if rng.random() < 0.7 else [str(x) for x in range(200)]
+        used = rng.sample(cats, min(len(cats), rng.choice([2, 3])))
+        codes = [cats.index(rng.choice(used)) for _ in range(n)]
+        return pd.Series(pd.Categorical.from_codes(codes, categories=cats))
+    if kind == "intshare":   # small-integer column whose value texts coincide with the labels above
+        dt = rng.choice(["int8", "int8", "int16"])
+        vals = rng.sample([1, 2, 7, -3, 10, 0, 100], rng.choice([2, 3]))
+        return pd.Series(np.array([rng.choice(vals) for _ in range(n)], dtype=dt))
     if kind == "cat":
         cats = rng.sample([t for t in ["a", "b", "é", "x y", "A" * 30, "c.d", "zz", "#"]], rng.choice([2, 3, 4]))
         used = rng.sample(cats, rng.choice([1, 2, len(cats)]))
@@ -396,8 +411,8 @@ def gen_frame_case(rng, confirm, i):
     n = rng.choice([0, 1, 2, 3, 5, 8, 13, 21, 34]) if i % 9 else rng.choice([0, 1])
     n_on = rng.choice([1, 1, 2, 2, 3])
     kinds = [rng.choice(["int", "int", "bool", "float", "time", "str", "strnum" if scheme == "hive" else "str", "cat",
-                         "intx", "boolx", "floatx", "strx", "timetz"]) for _ in range(n_on)]
-    which = i % 5 if confirm else -1
+                         "intx", "boolx", "floatx", "strx", "timetz", "pct", "catnumtxt", "intshare"]) for _ in range(n_on)]
+    which = i % 7 if confirm else -1
     if confirm:
         if which == 0:
             scheme, kinds[0] = "hive", "catnum"
@@ -405,6 +420,10 @@ def gen_frame_case(rng, confirm, i):
             scheme, kinds = "drill", ["strnum"] + kinds[1:]
         elif which == 4:        # regression stream of fix for tz-aware partition columns
             scheme, kinds[0] = "hive", "timetz"
+        elif which == 5:        # a text-labelled categorical with numeric-looking labels next to a small-int column sharing the texts
+            scheme, n_on, kinds = "hive", 2, rng.choice([["catnumtxt", "intshare"], ["intshare", "catnumtxt"]])
+        elif which == 6:        # percent sequences and friends in text keys
+            kinds[0] = "pct"
         elif which == 2:
             scheme, n_on, kinds = "drill", 2, [rng.choice(["str", "int"]), rng.choice(["bool", "time", "int"])]
         else:       # regression stream of fix d63c479: categorical key next to a key column that is all NULL in a chunk
